@@ -473,6 +473,19 @@ func main() {
 	// C38: value-log GC releases filesLock before it takes the file's own lock in deleteLogFile
 	// (a reader inside Item.Value holds the file's read lock and may need filesLock for a second
 	// read: seed C38f); no deferred unlock in rewrite
+	// C15/C13/C31: the entry a GC rewrite writes back keeps every user-visible field of the record:
+	// all meta bits except value-pointer and transaction bits (merge and discard-earlier bits
+	// included), user meta and expiry
+	facts = append(facts, fact{"has_rewrite_meta_keep", "op", has("value.go", "valueLog", "rewrite", "ne.meta = e.meta &^ (bitValuePointer | bitTxn | bitFinTxn)"), "value.go:valueLog.rewrite [ne.meta = e.meta &^ (bitValuePointer | bitTxn | bitFinTxn)]"})
+	facts = append(facts, fact{"has_rewrite_umeta_copy", "op", has("value.go", "valueLog", "rewrite", "ne.UserMeta = e.UserMeta"), "value.go:valueLog.rewrite [ne.UserMeta = e.UserMeta]"})
+	facts = append(facts, fact{"has_rewrite_exp_copy", "op", has("value.go", "valueLog", "rewrite", "ne.ExpiresAt = e.ExpiresAt"), "value.go:valueLog.rewrite [ne.ExpiresAt = e.ExpiresAt]"})
+	facts = append(facts, fact{"n_rewrite_meta_assign", "nat", strconv.Itoa(strings.Count(func() string {
+		fd := findFunc("value.go", "valueLog", "rewrite")
+		if fd == nil {
+			return ""
+		}
+		return src(fd.Body)
+	}(), "ne.meta")), "value.go:valueLog.rewrite [number of occurrences of ne.meta]"})
 	facts = append(facts, fact{"has_rewrite_deferred_unlock", "op", has("value.go", "valueLog", "rewrite", "defer vlog.filesLock.Unlock()"), "value.go:valueLog.rewrite [defer vlog.filesLock.Unlock()]"})
 	facts = append(facts, fact{"ord_rewrite_unlock_delete", "op", ascending("value.go", "valueLog", "rewrite",
 		"vlog.filesLock.Lock()", "delete(vlog.filesMap, f.fid)", "deleteFileNow = true", "if deleteFileNow {", "vlog.deleteLogFile(f)"), "value.go:valueLog.rewrite [decide under filesLock, delete the file after releasing it]"})
